@@ -195,6 +195,12 @@ func (c *CmdLine) computeSuffix(input string) (string, string) {
 		}
 
 		strippedInput = input[:length-1]
+		// What remains may end in an escaped `@` or `~` (e.g., `foo\@@`): remove that backslash too,
+		// the character is part of the command.
+		remaining := len(strippedInput)
+		if remaining >= 2 && (strippedInput[remaining-1] == '@' || strippedInput[remaining-1] == '~') && regex.IsEscaped(strippedInput, remaining-1) {
+			strippedInput = strippedInput[:remaining-2] + strippedInput[remaining-1:]
+		}
 	} else {
 		// remove the backslash
 		strippedInput = input[:length-2] + string(input[length-1])
